@@ -182,7 +182,45 @@ func c03Catalogue(a *ChildArgs) {
 		}
 		a.Rec.Count("catalogue_cases", 1)
 	}
+	c03RowCounts(a)
 	g := gen.New(rand.New(rand.NewSource(1)), nil)
 	x := cases[len(cases)/2].Build(g)
 	a.Rec.Sample("catalogue", 2, map[string]string{"id": cases[len(cases)/2].ID, "sql": gen.Plain(x.Toks)})
+}
+
+
+// c03RowCounts: "every literal appears in the tree with its written value" for the counts of LIMIT / OFFSET /
+// FETCH, which the tree stores as machine integers: a count is either carried exactly or the statement is
+// refused; a tree with another number in it is a violation.
+func c03RowCounts(a *ChildArgs) {
+	lits := []string{"0", "1", "2147483647", "2147483648", "4294967297", "9007199254740993", "9223372036854775807",
+		"9223372036854775808", "18446744073709551616", "99999999999999999999", "1.5", "1e3", "0.0", "007"}
+	forms := []struct{ name, pre, suf, field string }{
+		{"limit", "SELECT a FROM t LIMIT ", "", "Limit"},
+		{"offset", "SELECT a FROM t LIMIT 5 OFFSET ", "", "Offset"},
+		{"offset-rows", "SELECT a FROM t ORDER BY a OFFSET ", " ROWS", "Offset"},
+		{"fetch", "SELECT a FROM t ORDER BY a FETCH FIRST ", " ROWS ONLY", "FetchValue"},
+	}
+	for _, f := range forms {
+		for _, lit := range lits {
+			sql := f.pre + lit + f.suf
+			a.Rec.Count("evaluations", 1)
+			a.Rec.Count("row_count_cases", 1)
+			tree, err := gosqlx.Parse(sql)
+			if err != nil {
+				a.Rec.Count("row_count_refused", 1)
+				continue
+			}
+			dumped := dump.Tree(tree).String()
+			// the written value as the integer it denotes (leading zeros are not a different number)
+			want := strings.TrimLeft(lit, "0")
+			if want == "" {
+				want = "0"
+			}
+			if !strings.Contains(dumped, f.field+"=&"+want+")") && !strings.Contains(dumped, f.field+"=&"+want+" ") {
+				a.Rec.Viol("C03/row-count/"+f.name+"/"+lit+"#value", "every literal appears in the tree with its written value",
+					fmt.Sprintf("%s is accepted and the tree does not carry %s=%s: %s", sql, f.field, lit, trunc(dumped, 300)), map[string]interface{}{"sql": sql, "tree": dumped})
+			}
+		}
+	}
 }
